@@ -443,64 +443,32 @@ def cache_key(chk, op):
 
 
 def _local_parts(repo, loc, root, path):
-    """components (after the cache root) of local_cache_location(root, path), folded to constants"""
+    """components (below the cache root) of local_cache_location(root, path): the function is evaluated with the user cache
+    directory replaced by the model path /CACHE (pathlib and hashlib folded on constants)"""
+    import pathlib
     from ..shapes import Const, Interp, ShapeError, _Raise
     I = Interp(repo)
-    sc = I.module_scope(loc.module).child(owner=loc)
-    ps = loc.positional_params
-    if len(ps) != 2:
-        raise AnalysisError(f"{loc.key}: expected (remote_root, path) parameters")
-    sc.vars[ps[0]] = Const(root)
-    sc.vars[ps[1]] = Const(path)
-    body = [st for st in loc.node.body if not (isinstance(st, ast.Expr) and isinstance(st.value, ast.Constant))]
-    if not body or not isinstance(body[-1], ast.Return):
-        raise AnalysisError(f"{loc.key}: not a straight-line function ending in a return; cache location not decided")
-    parts = []
-    e = body[-1].value
-    while isinstance(e, ast.BinOp) and isinstance(e.op, ast.Div):
-        parts.append(e.right)
-        e = e.left
-    if not parts:
-        raise AnalysisError(f"{loc.key}: returns {short(body[-1].value, 60)}, not <cache root> / ... / <name>; cache location not decided")
-    out = []
+    msc = I.module_scope(loc.module)
+    msc.vars["cache_root"] = Const(pathlib.PurePosixPath("/CACHE"))
     try:
-        I.exec_block(body[:-1], sc, [])
-        for x in reversed(parts):
-            v = I.eval(x, sc)
-            if not (isinstance(v, Const) and isinstance(v.v, str)):
-                raise AnalysisError(f"{loc.key}: component {short(x, 40)} of the cache location does not fold to a constant for root {root!r} ({v!r}); not decided"[:300])
-            out.append(v.v)
+        v = I.call(I.lookup(loc.qualname, msc), [Const(root), Const(path)], {})
     except (ShapeError, _Raise) as ex:
-        raise AnalysisError(f"{loc.key}: cannot evaluate the cache location for {root!r}: {ex}")
-    return out
+        raise AnalysisError(f"{loc.key}: cannot evaluate the cache location for root {root!r}, image {path!r}: {str(ex)[:120]}")
+    if not isinstance(v, Const):
+        raise AnalysisError(f"{loc.key}: the cache location for root {root!r} does not fold to a constant ({v!r:.80}); not decided")
+    p_ = pathlib.PurePosixPath(str(v.v))
+    try:
+        rel = p_.relative_to("/CACHE")
+    except ValueError:
+        return ["<outside the user cache directory>"] + list(p_.parts)
+    return list(rel.parts)
 
 
 def _local_name(repo, loc, path):
-    from ..shapes import Const, Interp, ShapeError, _Raise
-    I = Interp(repo)
-    sc = I.module_scope(loc.module).child(owner=loc)
-    ps = loc.positional_params
-    if len(ps) != 2:
-        raise AnalysisError(f"{loc.key}: expected (remote_root, path) parameters")
-    sc.vars[ps[0]] = Const("memory://root")
-    sc.vars[ps[1]] = Const(path)
-    body = [st for st in loc.node.body if not (isinstance(st, ast.Expr) and isinstance(st.value, ast.Constant))]
-    if not body or not isinstance(body[-1], ast.Return):
-        raise AnalysisError(f"{loc.key}: not a straight-line function ending in a return; cache name not decided")
-    try:
-        I.exec_block(body[:-1], sc, [])
-        e = body[-1].value
-        if isinstance(e, ast.BinOp) and isinstance(e.op, ast.Div):
-            v = I.eval(e.right, sc)
-        else:
-            raise AnalysisError(f"{loc.key}: returns {short(e, 60)}, not <cache root> / ... / <name>; cache name not decided")
-    except (ShapeError, _Raise) as ex:
-        raise AnalysisError(f"{loc.key}: cannot evaluate the cache name for {path!r}: {ex}")
-    if isinstance(v, Const) and isinstance(v.v, str):
-        return v.v
-    if isinstance(v, Const) and hasattr(v.v, "as_posix"):
-        return v.v.as_posix()
-    raise AnalysisError(f"{loc.key}: the cache name for {path!r} does not fold to a constant ({v!r}); not decided"[:300])
+    parts = _local_parts(repo, loc, "memory://root", path)
+    if not parts:
+        raise AnalysisError(f"{loc.key}: the cache location for {path!r} is the cache root itself")
+    return parts[-1]
 
 
 # ----------------------------------------------------------------------------
